@@ -112,7 +112,7 @@ def oracle(which, msg_type, dest_mod, src_mod, ids, lgs, fsubs, csubs):
             for j in range(n):
                 if j == k or not (fm_sub[j] and able[j] and healthy[j]):
                     continue
-                notices = [p for hd, p in frames[j] if hd["msg_type"] == FM and hd["src_mod_id"] == 0
+                notices = [p for hd, p in frames[j] if hd["msg_type"] == FM and hd["src_mod_id"] == 0 and p[2] is not None
                            and W.pfield(p, "dest_mod_id") == ids[k]
                            and W.pfield(p, "msg_header", "msg_type") == msg_type]
                 for p in notices:
@@ -145,7 +145,7 @@ def oracle(which, msg_type, dest_mod, src_mod, ids, lgs, fsubs, csubs):
             for j in range(n):
                 if j == k or not (cc_sub[j] and able[j] and healthy[j]):
                     continue
-                closed = [p for hd, p in frames[j] if hd["msg_type"] == CC and hd["src_mod_id"] == 0 and W.pfield(p, "uid") == k + 1]
+                closed = [p for hd, p in frames[j] if hd["msg_type"] == CC and hd["src_mod_id"] == 0 and p[2] is not None and W.pfield(p, "uid") == k + 1]
                 want = 0 if alive[k] else 1
                 if len(closed) != want:
                     return False, "monitor %d saw %d CLIENT_CLOSED for module %d, expected %d" % (j, len(closed), k, want)
